@@ -30,7 +30,7 @@ func init() { core.Register(c15{}) }
 
 func (c15) ID() string { return "C15" }
 func (c15) Rule() string {
-	return "plans: optional prologue (a writer process killed at a drawn point of a store), then one task issuing <= 15 of Set / Get / clock advance to next-update boundaries (-1s,-1ns,0,+1ns,+1s of base and delta) / at-rest corruption of an entry / Set under injected ENOSPC-EIO, over 2-4 URLs from an alphabet of near-identical, traversal-shaped, empty, 10 KB and NUL strings. non-trivial: at least one Get was decided by the model against a stored entry (hit, expired, corrupted or after a failed store); distinct: hash of the op/fault sequence at scheduling points plus every Get verdict"
+	return "plans: optional prologue (a writer process killed at a drawn point of a store), then one task issuing <= 15 of Set / Get / clock advance to next-update boundaries (-1s,-1ns,0,+1ns,+1s of base and delta) / at-rest corruption of an entry / Set under injected ENOSPC-EIO, over 2-4 URLs from an alphabet of near-identical, traversal-shaped, empty, 10 KB and NUL strings. Concurrent stores of two different URLs by two more writers (own cache instances) with tape-driven interleaving of their file-system steps. non-trivial: at least one Get was decided by the model against a stored entry (hit, expired, corrupted or after a failed store); distinct: hash of the op/fault sequence at scheduling points plus every Get verdict"
 }
 func (c15) Components() map[string]string {
 	return map[string]string{
